@@ -10,6 +10,7 @@ using namespace lk;
 
 namespace lk {
 std::function<void()>* g_hold[8];
+void* g_other = nullptr;
 }
 
 namespace {
@@ -47,6 +48,11 @@ void body(const Prog& p)
     for (auto& h : lk::g_hold) h = nullptr;
     size_t base_blocks = live_blocks();
     void* w = in.create();
+    bool need_other = false;
+    for (auto& t : p.threads)
+        for (auto& o : t)
+            if (o.code == X_HANDOVER || o.code == S_HANDOVER) need_other = true;
+    lk::g_other = need_other ? in.create() : nullptr;
     {
         Event ev[2];
         std::vector<int> ids;
@@ -92,6 +98,11 @@ void body(const Prog& p)
     for (int i = 0; i < g_nhist; i++) o = o * 131 + (uint64_t)(g_hist[i].res * 4 + g_hist[i].ok);
     observe(o);
     in.destroy(w);
+    if (lk::g_other) {
+        MC_CHECK(!is_locked(in.mutex_addr(lk::g_other)), "leaked-lock", "the second wrapper's mutex is still locked after all handles were released");
+        in.destroy(lk::g_other);
+        lk::g_other = nullptr;
+    }
     MC_CHECK(live_blocks() == base_blocks, "leak", "%zu arena blocks not freed", live_blocks() - base_blocks);
 }
 
@@ -155,7 +166,7 @@ void make_items(const Options& o, std::vector<Item>& items)
         // exclusive side with locking enabled
         if (!in.enabled || in.deferred || in.name.rfind("atomic_guarded", 0) == 0) continue;
         std::vector<OpI> al;
-        for (int c : {X_LOCK, X_LOCK_UNLOCK, X_TRY, X_TRY_FOR, X_TRY_UNTIL, LOAD, STORE, ASSIGN, MODIFY, MODIFY_RET, CONVERT, X_RETRY})
+        for (int c : {X_LOCK, X_LOCK_UNLOCK, X_TRY, X_TRY_FOR, X_TRY_UNTIL, LOAD, STORE, ASSIGN, MODIFY, MODIFY_RET, CONVERT, X_RETRY, X_HANDOVER})
             if (in.has(c)) al.push_back(OpI{(uint8_t)c, (c == STORE || c == ASSIGN) ? -1 : 0});
         auto any = [](const Prog&) { return true; };
         gen(o, items, ii, al, {1, 1}, 3, 6, any);
@@ -175,7 +186,7 @@ void make_items(const Options& o, std::vector<Item>& items)
         if (!in.enabled || !in.has_shared_side) continue;
         std::vector<OpI> al;
         for (int c : {X_LOCK, X_TRY, X_TRY_FOR, STORE, MODIFY, MOD_DETACH, MOD_ASYNC, S_LOCK, S_TRY, S_TRY_FOR, S_TRY_UNTIL,
-                      S_CONST_LOCK, READ, READ_RET, LOAD, S_RETRY})
+                      S_CONST_LOCK, READ, READ_RET, LOAD, S_RETRY, S_HANDOVER})
             if (in.has(c))
                 al.push_back(OpI{(uint8_t)c, (c == STORE || c == MOD_DETACH || c == MOD_ASYNC) ? -1 : 0});
         auto mixed = [](const Prog& p) {
@@ -186,7 +197,7 @@ void make_items(const Options& o, std::vector<Item>& items)
             return false;
         };
         gen(o, items, ii, al, {1, 1}, 3, 6, mixed);
-        gen(o, items, ii, al, {1, 1, 1}, 3, 3, mixed);
+        gen(o, items, ii, al, {1, 1, 1}, 2, 3, mixed);
         if (thorough) gen(o, items, ii, al, {2, 1}, 3, 3, mixed);
         else
             gen(o, items, ii, al, {2, 1}, 3, 3, [&](const Prog& p) {
